@@ -29,6 +29,9 @@ type branchDesc struct {
 	// SelfLoops: number of tasks that get a sequence flow back to themselves
 	// (sourceRef == targetRef: legal, e.g. a retry flow)
 	SelfLoops int          `json:"selfLoops,omitempty"`
+	// Boundaries: number of tasks that carry a boundary event (signal,
+	// non-interrupting) with an exception path (task -> end event)
+	Boundaries int `json:"boundaries,omitempty"`
 	Progs     []*gen.Block `json:"progs"`
 	DeclSeed  int          `json:"declSeed"`
 	Layout    layoutSpec   `json:"layout"`
@@ -48,6 +51,25 @@ func checkBranch(d branchDesc) (sym, det, x string) {
 					n.Out = append(n.Out, f.ID)
 					n.In = append(n.In, f.ID)
 				}
+			}
+		}
+		if d.Boundaries > 0 {
+			left := d.Boundaries
+			for _, n := range append([]*gen.Node(nil), g.Nodes...) {
+				if n.Kind != gen.KTask || left == 0 {
+					continue
+				}
+				left--
+				be := &gen.Node{ID: "bnd_" + n.ID, Kind: gen.KBoundary, AttachedTo: n.ID, Defs: []gen.EventDef{{Kind: "signal", Ref: "bs"}}}
+				xt := &gen.Node{ID: "bndt_" + n.ID, Kind: gen.KTask, TaskKind: "task"}
+				xe := &gen.Node{ID: "bnde_" + n.ID, Kind: gen.KEnd}
+				f1 := &gen.Flow{ID: "bndf1_" + n.ID, Src: be.ID, Dst: xt.ID}
+				f2 := &gen.Flow{ID: "bndf2_" + n.ID, Src: xt.ID, Dst: xe.ID}
+				be.Out = []string{f1.ID}
+				xt.In, xt.Out = []string{f1.ID}, []string{f2.ID}
+				xe.In = []string{f2.ID}
+				g.Nodes = append(g.Nodes, be, xt, xe)
+				g.Flows = append(g.Flows, f1, f2)
 			}
 		}
 		prog := &gen.Program{G: g, DefaultLang: "expr", DeclSeed: d.DeclSeed}
@@ -106,6 +128,7 @@ func TestC19LayoutBranching(t *testing.T) {
 		d.Progs = append(d.Progs, gen.GenProgram(rt, gen.GenOpts{MaxDepth: 3, MaxNodes: 14}))
 		d.DeclSeed = rapid.IntRange(0, 50).Draw(rt, "declSeed")
 		d.SelfLoops = rapid.SampledFrom([]int{0, 0, 1, 2}).Draw(rt, "selfLoops")
+		d.Boundaries = rapid.SampledFrom([]int{0, 0, 1, 2}).Draw(rt, "boundaries")
 		grid := []float64{36, 100, 120, 180, 1e6}
 		origins := []float64{-1e6, 0, 96, 1e6}
 		d.Layout.Default = rapid.IntRange(0, 2).Draw(rt, "defaultLayout") == 0
